@@ -1268,6 +1268,74 @@ def rule_timex_value(chk, idx):
 
 
 # ---------------------------------------------------------------------------------------------------
+# C11.timex-value (time ranges by pure numbers): the hours printed into the TIMEX are those of the resolved values
+
+def pure_number_table(idx, cls, fn):
+    """interpret parse_pure_numbers for begin / end hours 1..12 under an am or pm marker.
+    -> [(scenario, b, e, timex, start, end)]"""
+    import datetime as dt
+    import re as _re
+    from .c09 import Interp, Obj, FuncRef, Unreadable, PyRaise
+    ev = make_evalc(idx, cls.mod, cls)
+    rows = []
+    for scenario in ('am', 'pm'):
+        for b in range(1, 13):
+            for e in range(1, 13):
+                def group_of(call):
+                    return ev(call.args[1]) if len(call.args) > 1 else None
+
+                hooks = [
+                    (lambda c: callee_name(c) == 'get_group_list' and group_of(c) == 'hour', [str(b), str(e)]),
+                    (lambda c: isinstance(c.func, ast.Attribute) and c.func.attr == 'get' and isinstance(c.func.value, ast.Attribute)
+                     and c.func.value.attr == 'numbers', None),
+                    (lambda c: callee_name(c) == 'get_group' and group_of(c) == 'pm', 'pm' if scenario == 'pm' else ''),
+                    (lambda c: callee_name(c) == 'get_group' and group_of(c) == 'am', 'am' if scenario == 'am' else ''),
+                    (lambda c: callee_name(c) == 'get_group' and group_of(c) in ('leftDesc', 'rightDesc'), ''),
+                ]
+                it = Interp(idx, hooks=hooks, oracle=lambda ifnode, expr: False)
+                try:
+                    res = it.call_function(FuncRef(cls.mod, cls, fn), ['<text>', dt.datetime(2016, 11, 7, 12, 0, 0)], {})
+                except Unreadable as ex:
+                    raise AnalysisError('%s.%s cannot be interpreted: %s' % (cls.name, fn.name, ex))
+                except PyRaise as ex:
+                    rows.append((scenario, b, e, 'raises %s' % ex, None, None))
+                    continue
+                if not isinstance(res, Obj) or not res.attrs.get('success'):
+                    continue
+                fv = res.attrs.get('future_value')
+                start = fv.attrs.get('start') if isinstance(fv, Obj) else None
+                end = fv.attrs.get('end') if isinstance(fv, Obj) else None
+                rows.append((scenario, b, e, res.attrs.get('timex'), start, end))
+    return rows
+
+
+def rule_timex_range_hours(chk, idx):
+    import re as _re
+    rid = 'C11.timex-value'
+    c = idx.cls(PKG + '.base_timeperiod.BaseTimePeriodParser')
+    fn = c.methods.get('parse_pure_numbers')
+    if fn is None:
+        raise AnalysisError('anchor vanished: BaseTimePeriodParser.parse_pure_numbers')
+    rows = pure_number_table(idx, c, fn)
+    if len(rows) < 100:
+        raise AnalysisError('BaseTimePeriodParser.parse_pure_numbers: only %d of 288 marker/hour combinations produced a result' % len(rows))
+    chk.consulted(c.mod.path)
+    bad = []
+    for scenario, b, e, timex, start, end in rows:
+        m = _re.match(r'^\(T(\d+)((?::\d\d)*),T(\d+)((?::\d\d)*),', timex) if isinstance(timex, str) else None
+        if m is None or not hasattr(start, 'hour') or not hasattr(end, 'hour'):
+            bad.append('%d to %d %s: TIMEX %r / values %r..%r not comparable' % (b, e, scenario, timex, start, end))
+            continue
+        tb, te = int(m.group(1)), int(m.group(3))
+        if not (0 <= tb <= 23 and 0 <= te <= 23) or tb != start.hour or te != end.hour:
+            bad.append("'%d to %d%s': TIMEX %s but values %s .. %s" % (b, e, scenario, timex, start.strftime('%H:%M'), end.strftime('%H:%M')))
+    chk.judge(not bad, rid, c.mod.path, 'BaseTimePeriodParser.parse_pure_numbers',
+              '%d marker/hour combinations interpreted; disagreeing: %s' % (len(rows), '; '.join(bad[:2]) if bad else 'none'),
+              'the hours printed into the range TIMEX are not the hours (0..23) of the resolved start / end: %s%s'
+              % ('; '.join(bad[:3]), ' ... (%d cases)' % len(bad) if len(bad) > 3 else ''), fn.lineno)
+
+
+# ---------------------------------------------------------------------------------------------------
 
 def run(chk):
     chk.explanation = ('writer/reader agreement between the 22 date-time parser classes and the merged parser (types dispatched, '
@@ -1288,6 +1356,7 @@ def run(chk):
     rule_range_order(chk, idx)
     rule_sentinel(chk, idx)
     rule_timex_value(chk, idx)
+    rule_timex_range_hours(chk, idx)
     chk.assume('extractor results carry the type given by extractor_type_name or by the explicit third argument of '
                'merge_all_tokens; DateTimeParseResult(source) copies source.type, which each parser checks against its '
                'parser_type_name; a datetime object always formats to a valid calendar date / clock time')
